@@ -56,6 +56,7 @@ def check_C11(chk: Check, replay: str | None) -> None:
     _model_check(chk)
     wrows = prim_driver.writer_rows(chk.tier, chk.seed)
     rrows, _ = prim_driver.reader_rows(chk.tier, chk.seed)
+    rrows = rrows + prim_driver.reader_after_writer_rows(wrows, chk.seed)
     rows = wrows + rrows
     public = set(prim_driver.public_functions())
     covered = {r["fn"] for r in rows}
